@@ -147,7 +147,7 @@ package hessian
 
 //@ func preallocLen
 //@   pure
-//@   ensures [C14:prealloc-cap] result == ite(length > 1024, 1024, length)
+//@   ensures [C14:prealloc-cap] result <= length && result <= 2048 && (length >= 0 ==> result >= 0)
 
 //@ func grownLen
 //@   pure
@@ -351,6 +351,7 @@ package hessian
 
 //@ func NewDecoder
 //@   ensures [C11,C17:new-decoder] fresh(result) && result.typMap != nil && (typ != nil ==> result.typMap == typ)
+//@   ensures [C11,C12:new-decoder-keeps-map] mapsame(typ)
 
 //@ func (*Decoder).ReadObject
 //@   assigns @pos, @E, @declared, @rset, @nvals, @selfregs, @lastreader, @calls, @dstartcls, @dstartrefs, @dstarttyps, d.typList, d.refList, d.clsDefList
@@ -363,9 +364,11 @@ package hessian
 //@   ensures [C11:one-shot-from-reset-state] @dstartcls == 0 && @dstartrefs == 0 && @dstarttyps == 0 && d.reader == reader
 
 //@ func (*goHessian).Read
+//@   assigns @pos, @E, @declared, @rset, @nvals, @selfregs, @lastreader, @calls, @dstartcls, @dstartrefs, @dstarttyps, gh.decoder.typList, gh.decoder.refList, gh.decoder.clsDefList
 //@   ensures [C06:tables-continue] @dstartcls == len(old(gh.decoder.clsDefList)) && @dstartrefs == len(old(gh.decoder.refList))
 
 //@ func (*goHessian).ReadFrom
+//@   assigns @pos, @E, @declared, @rset, @nvals, @selfregs, @lastreader, @calls, @dstartcls, @dstartrefs, @dstarttyps, gh.decoder.reader, gh.decoder.typList, gh.decoder.refList, gh.decoder.clsDefList
 //@   ensures [C11:one-shot-from-reset-state] @dstartcls == 0 && @dstartrefs == 0 && @dstarttyps == 0
 
 //@ func (*Decoder).Decode
@@ -373,9 +376,11 @@ package hessian
 //@   ensures [C11:one-shot-from-reset-state] @dstartcls == 0 && @dstartrefs == 0 && @dstarttyps == 0
 
 //@ func ToObject
+//@   assigns @pos, @E, @declared, @rset, @nvals, @selfregs, @lastreader, @calls, @dstartcls, @dstartrefs, @dstarttyps
 //@   ensures [C11:one-shot-from-reset-state] @dstartcls == 0 && @dstartrefs == 0 && @dstarttyps == 0
 
 //@ func (*goHessian).ToObject
+//@   assigns @pos, @E, @declared, @rset, @nvals, @selfregs, @lastreader, @calls, @dstartcls, @dstartrefs, @dstarttyps, gh.decoder.reader, gh.decoder.typList, gh.decoder.refList, gh.decoder.clsDefList
 //@   ensures [C11:one-shot-from-reset-state] @dstartcls == 0 && @dstartrefs == 0 && @dstarttyps == 0
 
 // ---------------------------------------------------------------- tag predicates (C01, C03)
